@@ -1,6 +1,7 @@
 """C15 — bind/auth handshake relays tokens faithfully and fails closed."""
 from __future__ import annotations
 
+import itertools
 import typing as t
 
 from env import refdc, secctx, seams, transport
@@ -320,7 +321,82 @@ def shards(tier: str, seed: int):
     if tier == "thorough":
         out.append(["dfs", "both", 1, 99])
         out.append(["dfs", "both", 2, 99])
+    out += [["ctx-order", api] for api in ("sync", "async")]
     return out
+
+
+CTX_ORDERS = [[0, 1], [1, 0], [0, 1, 2], [2, 0, 1], [1, 2, 0], [2, 1, 0], [7, 3], [3, 7, 5], [65535, 0], [0, 65535, 1]]
+
+
+class OrderConn(refdc.Conn):
+    """answers a bind positionally (result i belongs to the i-th context ON THE WIRE) with a given accept / reject vector, runs a 3-leg
+    handshake, and records which context ids every later alter_context offers and every request names"""
+
+    def __init__(self, dc, vec, log) -> None:
+        super().__init__(dc, "isd", "dc", dc.isd_port)
+        self.vec, self.olog, self.n = vec, log, 0
+
+    def on_pdu(self, raw: bytes) -> t.Optional[bytes]:
+        d = rpc.decode(raw, strict=False)
+        pt = d["ptype"]
+        a = d["auth"] or dict(type=10, level=6, ctx=0)
+        if pt == rpc.BIND:
+            ids = [c[0] for c in d["contexts"]]
+            self.olog["bind_ids"] = ids
+            self.olog["accepted"] = {ids[i] for i in range(len(ids)) if self.vec[i]}
+            res = [(0, 0, rpc.NDR64) if self.vec[i] else (2, 2, refdc.NIL) for i in range(len(ids))]
+            auth = dict(type=a["type"], level=a["level"], ctx=a["ctx"], token=b"S-TOK-1") if d["auth"] else None
+            return rpc.enc_ack_like(rpc.BIND_ACK, 3, d["call_id"], res, auth, b"49664\x00")
+        if pt == rpc.ALTER_CONTEXT:
+            ids = [c[0] for c in d["contexts"]]
+            self.olog["alter_ids"].append(ids)
+            res = [(0, 0, rpc.NDR64) for _ in ids]
+            self.n += 1
+            auth = dict(type=a["type"], level=a["level"], ctx=a["ctx"], token=b"S-TOK-%d" % (self.n + 1)) if d["auth"] else None
+            return rpc.enc_ack_like(rpc.ALTER_CONTEXT_RESP, 3, d["call_id"], res, auth, b"")
+        return None
+
+
+def run_ctx_order(api: str, order, vec, auth: bool):
+    from dpapi_ng._gkdi import ISD_KEY
+    from dpapi_ng._rpc import NDR64, ContextElement, async_create_rpc_connection, create_rpc_connection
+
+    log: t.Dict[str, t.Any] = dict(alter_ids=[], bind_ids=None, accepted=None)
+
+    class _DC(refdc.DC):
+        def connect(self_, host, port):  # noqa: N805
+            c = OrderConn(self_, vec, log)
+            self_.conns.append(c)
+            return c
+
+    d_ = seams.Drbg(("C15order",))
+    dc = _DC([seams.make_root(d_, "SHA256")], now=(361, 10, 12))
+    ctxs = [ContextElement(i, ISD_KEY, [NDR64]) for i in order]
+    kw = dict(username="u", password="p", auth_protocol="ntlm") if auth else {}
+    with transport.network(dc), secctx.scripted_client(lambda u, p, **k: secctx.ScriptedContext([b"C1", b"C2", b"C3"], 16)):
+        try:
+            if api == "sync":
+                c = create_rpc_connection("dc", dc.isd_port, **kw)
+                try:
+                    ack = budget.run(STEP_LIMIT, c.bind, contexts=ctxs)[0]
+                finally:
+                    c.close()
+            else:
+
+                async def go():
+                    c = await async_create_rpc_connection("dc", dc.isd_port, **kw)
+                    try:
+                        return await c.bind(contexts=ctxs)
+                    finally:
+                        await c.close()
+
+                ack = budget.run(STEP_LIMIT, vloop.run, go())[0]
+            log["result"] = ("ok", [int(r.result) for r in ack.results])
+        except budget.BudgetExceeded as e:
+            log["result"] = ("budget", repr(e))
+        except Exception as e:  # noqa: BLE001
+            log["result"] = ("exc", (type(e).__name__, str(e)[:120]))
+    return log
 
 
 def summary(log: dict):
@@ -336,8 +412,42 @@ def summary(log: dict):
     return (pdus, list(p.steps) if p else None, wraps, unwraps, res)
 
 
+def judge_ctx_order(acc, api, order, vec, auth) -> None:
+    log = run_ctx_order(api, order, vec, auth)
+    case = ["ctx-order", api, list(order), list(vec), auth]
+    st, val = log["result"]
+    acc.ev()
+    acc.states += 1
+    acc.transitions += 1 + len(log["alter_ids"])
+    acc.nt(("ctx-order", api, tuple(order), tuple(vec), auth))
+    if log["bind_ids"] is None or sorted(log["bind_ids"]) != sorted(order):
+        acc.violate("ctx-order.bind-contexts", case, {"on_the_wire": log["bind_ids"], "offered": list(order)})
+        return
+    if st == "budget":
+        acc.violate("I7.termination", case, {"detail": val})
+        return
+    # whatever the order on the wire, the server answered position by position: an alter_context re-offers accepted contexts only
+    for ids in log["alter_ids"]:
+        bad = [i for i in ids if i not in log["accepted"]]
+        if bad:
+            acc.violate("ctx-order.alter-context-offers-rejected-context", case, {"alter_context_ids": ids, "accepted_by_server": sorted(log["accepted"]), "bind_order_on_the_wire": log["bind_ids"]})
+    # and the results the caller gets back line up with the list the caller handed in
+    if st == "ok":
+        want = [0 if order[i] in log["accepted"] else 2 for i in range(len(order))]
+        if val != want:
+            acc.violate("ctx-order.results-misaligned", case, {"results_returned": val, "for_contexts": list(order), "accepted_by_server": sorted(log["accepted"])})
+    acc.outcome("ctx-order:" + st)
+
+
 def run_shard(shard, tier, seed, acc) -> None:
     seams.block_network()
+    if shard[0] == "ctx-order":
+        for order in CTX_ORDERS:
+            for vec in itertools.product((True, False), repeat=len(order)):
+                for auth in (True, False):
+                    judge_ctx_order(acc, shard[1], order, vec, auth)
+        acc.sample({"context id orders": CTX_ORDERS, "accept/reject vectors": "all", "api": shard[1]})
+        return
     _, _both, pi, bound = shard
     prov = providers()[pi]
     seen: t.Dict[str, t.Dict[t.Tuple[int, ...], t.Any]] = {"sync": {}, "async": {}}
@@ -377,6 +487,9 @@ def _dfs(acc, seed, api, pi, prov, bound, seen) -> None:
 
 def replay(case, seed, acc) -> None:
     seams.block_network()
+    if case[0] == "ctx-order":
+        judge_ctx_order(acc, case[1], case[2], case[3], case[4])
+        return
     if case[0] == "script-both":
         _, pi, choices = case
         prov = providers()[pi]
